@@ -72,3 +72,20 @@ From SV Require Fmt0 Fmt0Proof.
 Theorem C01_L0_no_double_minus : forall e c, Expr.can (Fmt0.shape e) = true -> Expr.no_double_minus (Fmt0.shape (Fmt0.nexp c e)) = true.
 Proof. exact Fmt0Proof.nexp_no_double_minus. Qed.
 Print Assumptions C01_L0_no_double_minus.
+
+(* (e) L0: the text the whole-formatter model prints lexes back to exactly the tokens it printed, for every
+   well-formed program of the fragment, every indentation setting (an indent width of zero excluded) and quote style;
+   with comments the line ending must be LF (full_moon makes the CR of a CR LF behind a line comment part of the
+   comment: the text is the same, the token list is not).  Proved through LexAdj.adj_relex: every printed token is
+   compatible with the first character of what follows it. *)
+From SV Require LexAdj Fmt0Lex.
+Theorem C01_L0_output_lexes_back_to_the_printed_tokens : forall v, Lex.vjit v = false -> forall c,
+  (Fmt0.spaces0 c = true -> Fmt0.width0 c <> 0) -> forall p, Fmt0Lex.wfb v (Fmt0.style0 c) c p ->
+  Lex.lex_loop v (S (List.length (LexRender.render (Fmt0.pprog c p)))) (LexRender.render (Fmt0.pprog c p)) = Some (Fmt0.pprog c p).
+Proof. intros v Hj c Hw p W. exact (Fmt0Lex.pprog_relexes v Hj (Fmt0.style0 c) c eq_refl Hw p W). Qed.
+Print Assumptions C01_L0_output_lexes_back_to_the_printed_tokens.
+Theorem C01_adjacent_token_checker_is_sound : forall v, Lex.vjit v = false -> forall ts,
+  List.Forall (LexAdj.wf_tok v) ts -> LexAdj.adj_ok ts None = true ->
+  Lex.lex_loop v (S (List.length (LexRender.render ts))) (LexRender.render ts) = Some ts.
+Proof. exact LexAdj.adj_relex. Qed.
+Print Assumptions C01_adjacent_token_checker_is_sound.
